@@ -127,6 +127,24 @@ def decl_pairs(tier):
             add("bounds: single bit at 2^64-1", base, [field("x", [(M - 1, M - 1)], T_bool())], [field("x", [(top, top)], T_bool())])
             add("bounds: range up to 2^64-1", base, [field("x", [(M - 2, M - 1)], T_uint(2))], [field("x", [(base - 2, top)], T_uint(2))])
             add("bounds: list with a bit at 2^64-1", base, [field("x", [(0, 0), (M - 1, M - 1)], T_uint(2))], [field("x", [(0, 0), (top, top)], T_uint(2))])
+            # numbers spelled with a radix prefix / suffix / fraction: whether the macro refuses the spelling or reads
+            # the value, a position at or beyond the base width and a stride below the element width cannot be accepted
+            for rdx in ("hex", "bin", "oct", "suffix", "float"):
+                bad = field("x", [(base, base)], T_bool())
+                bad["radix"] = rdx
+                add("spelling (%s): single bit at the base width" % rdx, base, [bad], [field("x", [(top, top)], T_bool())])
+                bad = field("x", [(base - 1, base)], T_uint(2))
+                bad["radix"] = rdx
+                add("spelling (%s): range ending at the base width" % rdx, base, [bad], [field("x", [(base - 2, top)], T_uint(2))])
+                bad = field("x", [(0, 0), (base + 16, base + 16)], T_uint(2))
+                bad["radix"] = rdx
+                add("spelling (%s): list entry far beyond the base" % rdx, base, [bad], [field("x", [(0, 0), (top, top)], T_uint(2))])
+                bad = field("x", [(0, 1)], T_uint(2), array={"k": 2, "stride": 1})
+                bad["radix"] = rdx
+                add("spelling (%s): stride below the element width" % rdx, base, [bad], [field("x", [(0, 1)], T_uint(2), array={"k": 2, "stride": 2})])
+                bad = field("x", [(0, 1), (3, 3)], T_uint(3), array={"k": 3, "stride": base // 2})
+                bad["radix"] = rdx
+                add("spelling (%s): strided list array overruns the base" % rdx, base, [bad], [field("x", [(0, 1), (3, 3)], T_uint(3), array={"k": 2, "stride": base // 2 - 2})])
             add("bounds: non-contiguous array overruns the base", base,
                 [field("x", [(0, 0), (base - 2, base - 2)], T_uint(2), array={"k": 3, "stride": 1})],
                 [field("x", [(0, 0), (base - 2, base - 2)], T_uint(2), array={"k": 2, "stride": 1})])
@@ -283,6 +301,17 @@ def enum_cases(tier):
         out.append(("discriminant 2^N", lit_enum("E", N, "false", [("A", "0", None), ("B", "%d" % full, None)][: 2 if full > 2 else 1] if full > 2 else [("B", "%d" % full, None)]),
                     mk_enum("x", "E", N, [0, full - 1] if full > 2 else [full - 1])))
         out.append(("discriminant 2^N+1", lit_enum("E", N, "false", [("B", "%d" % (full + 1), None)]), mk_enum("x", "E", N, [full - 1])))
+    # an explicit #[repr(..)] (the storage integer or a wider one) does not relax any rule: rustc then checks the
+    # discriminants against the repr type only, the 2^N bound stays the macro's job
+    for N, rp in ((1, "u8"), (2, "u8"), (3, "u8"), (7, "u8"), (2, "u16"), (9, "u16"), (12, "u16"), (15, "u16"), (17, "u32"), (24, "u32"), (31, "u32"), (33, "u64"), (48, "u64"), (63, "u64")):
+        full = 1 << N
+        at = ("#[repr(%s)]" % rp,)
+        out.append(("repr(%s): discriminant 2^N" % rp, lit_enum("E", N, "false", [("A", "0", None), ("B", "%d" % full, None)], attrs=at), mk_enum("x", "E", N, [0, full - 1])))
+        out.append(("repr(%s): discriminant repr::MAX" % rp, lit_enum("E", N, "false", [("A", "1", None), ("B", "%d" % ((1 << int(rp[1:])) - 1), None)], attrs=at), mk_enum("x", "E", N, sorted({1, full - 1}))))
+        if N <= 3:
+            vs = seq(full - 1) + [("Big", "%d" % (full + 3), None)]
+            out.append(("repr(%s): 2^N variants, one oversized, exhaustive=true" % rp, lit_enum("E", N, "true", vs, attrs=at), mk_enum("x", "E", N, list(range(full)))))
+            out.append(("repr(%s): 2^N variants, one oversized, conditional" % rp, lit_enum("E", N, "conditional", vs, attrs=at), mk_enum("x", "E", N, list(range(full)))))
     for N in (1, 2, 3, 4):
         full = 1 << N
         # exactly 2^N variants, but one discriminant does not fit: neither exhaustive nor representable
